@@ -26,6 +26,7 @@ type half struct {
 	written  int64
 	stall    bool  // virtual time: a read that would block with an armed deadline times out at once
 	werr     error // injected write error
+	waiters  int   // readers blocked because the queue is empty
 }
 
 func newHalf() *half { h := &half{}; h.cond = sync.NewCond(&h.mu); return h }
@@ -66,7 +67,9 @@ func (h *half) read(p []byte) (int, error) {
 		if !h.deadline.IsZero() && (h.stall || !time.Now().Before(h.deadline)) {
 			return 0, os.ErrDeadlineExceeded
 		}
+		h.waiters++
 		h.cond.Wait()
+		h.waiters--
 	}
 }
 
@@ -128,6 +131,14 @@ func (c *Conn) Close() error {
 		}
 	})
 	return nil
+}
+
+// PeerBlockedInRead tells whether the peer has consumed everything written so far and is blocked in Read
+// waiting for more (a way to know that it has processed what it was sent).
+func (c *Conn) PeerBlockedInRead() bool {
+	c.w.mu.Lock()
+	defer c.w.mu.Unlock()
+	return c.w.waiters > 0 && len(c.w.buf) == 0
 }
 
 // CloseWrite half-closes: the peer reads EOF after draining.
